@@ -355,7 +355,19 @@ def run(prog, rep, tier, repo):
                 er_ops = {limit_op(cn, v) for cn, v in gs if is_limit(cn, v)}
                 if 'Ge' in ex_ops and er_ops == {'Gt'}:
                     okconv = False
-        if notconv and okconv:
+        # the flag that receives has_converged(..) may not also be set to true by anything else (a shortcut "this family needs one step")
+        forced = []
+        for st_ in f.stores():
+            if tag(st_.target) == 'local' and f.body.local_ty(st_.target[1]) == 'bool' and tag(st_.value) == 'call' and st_.value[1] == G + '::has_converged':
+                for st2 in f.stores():
+                    if st2.target == st_.target and tag(st2.value) == 'const' and st2.value[2] is True:
+                        forced.append((st_.target, st2))
+        if forced:
+            loc_, st2 = forced[0]
+            gs2 = [show(cn)[:40] + (' is %s' % v) for cn, v in f.guards().get(st2.bb, []) if tag(cn) != 'discr' or True][:3]
+            rep.viol('fit-loop', key, 'the convergence flag `%s` is also set to true without the convergence test (under %s): fit() then reports success for '
+                     'coefficients that were never checked to have stopped moving' % (show(loc_), '; '.join(gs2) or 'no condition'), site_of(st2.span))
+        elif notconv and okconv:
             rep.ok('fit-loop', key, 'Err is returned only when the convergence test failed; Ok only when it succeeded')
         elif not any_conv_guard:
             rep.undecided('fit-loop', key, 'the convergence flag guarding the Err/Ok exits was not traced', site_of(f.body), proof=False)
@@ -449,7 +461,18 @@ def run(prog, rep, tier, repo):
         for z in cmps:
             lhs = z[2] if z[1] in ('Lt', 'Le') else z[3]
             verdicts.append((nonneg(lhs), z))
-        if not verdicts:
+        # NaN: "converged" must be established by a comparison that is *true* -- `!(change >= tol)` is also satisfied by a NaN change (an
+        # overflowed deviance), which would report success on NaN coefficients
+        from ..tol import _bool_leaves
+        nan_pass = []
+        for r_ in hc.return_values():
+            for cmp_, v_false in _bool_leaves(prog, r_, True, 0, hc):
+                if cmp_ in cmps and tag(cmp_) == 'bin' and cmp_[1] in ('Lt', 'Le', 'Gt', 'Ge') and v_false is True:
+                    nan_pass.append(cmp_)
+        if nan_pass:
+            rep.viol('convergence-magnitude', key, 'convergence is concluded from `%s` being false: a NaN change (overflowed or undefined deviance) makes every ordered '
+                     'comparison false and therefore counts as converged, so fit() reports success instead of an error' % show(nan_pass[0])[:80], site_of(hc.body))
+        elif not verdicts:
             rep.undecided('convergence-magnitude', key, 'no comparison of a loss change with the tolerance recognised', site_of(hc.body), proof=False)
         elif any(v is False for v, _ in verdicts):
             z = [z for v, z in verdicts if v is False][0]
